@@ -387,6 +387,12 @@ object_t* load_object (const char *mudlib_filename, const char *pre_text) {
   (void) strncat (real_name, ".c", sizeof(real_name) - strlen(real_name) - 1);
 
   opt_trace(TT_COMPILE|1, "load_object: \"%s\"", real_name);
+  /* names with a '..' component must not even be stat()ed: they point outside the mudlib */
+  if (strstr (real_name, "..") && !legal_path (real_name))
+    {
+      num_objects_this_thread--;
+      error ("*Illegal path name '/%s'.", real_name);
+    }
   if (stat (real_name, &c_st) == -1)
     {
       svalue_t *v;
